@@ -1,6 +1,6 @@
 """C06 Covariance and correlation matrices are consistent with the individual errors.
 
-E-PROD: every k-subset (k=2..5 quick, ..8 thorough) of a pool of 13 analysed observables x analysis
+E-PROD: every k-subset (k=2..4 quick, ..7 thorough) of a pool of 19 analysed observables x analysis
 parameters x correlation flag x every admissible smoothing parameter; all permutations for k<=4,
 all <=2-transposition deviations beyond; helper functions against their definitions."""
 import os
@@ -13,7 +13,7 @@ from mc import engine, alpha, ref, compare
 from mc.engine import Acc
 
 LEVEL = 'exploration'
-RULE = ('full product: every k-subset of a 13-observable pool (same-configuration derived observables, nested / every-other / '
+RULE = ('full product: every k-subset of a 19-observable pool (same-configuration derived observables, nested / every-other / '
         'partly overlapping / disjoint single chains, two replicas, second ensemble, pure and mixed covariance inputs) for '
         'k=2..5 (quick) / 2..8 (thorough) x analysis parameters {default, S=0, tau_exp=3} x correlation {False, True} x every '
         'admissible smoothing E; all permutations (k<=4), all <=2-transposition deviations (k=5) or all single transpositions (k>=6) of each list; helpers '
@@ -59,9 +59,21 @@ def pool(pe, pi):
     c0 = cv[0] * 1.0
     c1 = cv[1] ** 2 + cv[0]
     mix = p1 * cv[0] + b1
-    obs = [p1, p2, q, s, n1, n2, n3, far, m1, b1, c0, c1, mix]
+    m2 = mk({'A|r1': full, 'A|r2': enl('irr', 2)}, 'm2', 'ar1', 0.4)
+    # m3: the fluctuations of m1 rescaled by a different positive factor on each replica (perfectly correlated with m1)
+    m3 = pe.Obs([2.0 * (m1.deltas['A|r1'] + m1.r_values['A|r1']), 0.5 * (m1.deltas['A|r2'] + m1.r_values['A|r2'])], ['A|r1', 'A|r2'],
+                idl=[m1.idl['A|r1'], m1.idl['A|r2']])
+    # u, w: replicas with very different variances; w = u rescaled per replica the opposite way (perfectly correlated
+    # replica by replica; any normalisation that is not replica-wise leaves [-1, 1])
+    u1 = alpha.data('white', list(range(1, 21)), alpha.rng('c06', 'u1'), 1.0, 1.0)
+    u2 = alpha.data('white', list(range(1, 31)), alpha.rng('c06', 'u2'), 1.0, 0.1)
+    u = pe.Obs([u1, u2], ['A|r1', 'A|r2'])
+    w = pe.Obs([0.1 * u1, 10.0 * u2], ['A|r1', 'A|r2'])
+    e1 = mk({'A|r1': alpha.CFG['eqA']}, 'e1')
+    e2 = mk({'A|r1': alpha.CFG['eqB']}, 'e2')
+    obs = [p1, p2, q, s, n1, n2, n3, far, m1, b1, c0, c1, mix, m2, e1, e2, m3, u, w]
     names = ['p1', 'p2', 'q=p1*p2', 's=sin(p1)+p2/2', 'n1(prefix)', 'n2(every-other)', 'n3(shifted)', 'far(disjoint)',
-             'm1(2 replicas)', 'b1(ens B)', 'c0(cov)', 'c1(cov)', 'mix(A,B,cov)']
+             'm1(2 replicas)', 'b1(ens B)', 'c0(cov)', 'c1(cov)', 'mix(A,B,cov)', 'm2(2 replicas)', 'e1(eqA)', 'e2(eqB)', 'm3(m1 rescaled per replica)', 'u(2 replicas, unequal variance)', 'w(u rescaled per replica)']
     with warnings.catch_warnings():
         warnings.simplefilter('ignore')
         for o in obs:
@@ -71,7 +83,8 @@ def pool(pe, pi):
 
 
 SAME_CONFIG = {0, 1, 2, 3}            # all on A|r1 'full'
-SINGLE_CHAIN = {0, 1, 2, 3, 4, 5, 6, 7}
+SINGLE_CHAIN = {0, 1, 2, 3, 4, 5, 6, 7, 14, 15}
+NPOOL = 19
 PURE_COV = {10, 11}
 
 
@@ -80,10 +93,14 @@ def support(o):
 
 
 def build(tier, seed):
-    kmax = 5 if tier == 'quick' else 8
+    kmax = 4 if tier == 'quick' else 7
     cases = []
     for k in range(2, kmax + 1):
-        combos = list(itertools.combinations(range(13), k))
+        combos = list(itertools.combinations(range(NPOOL), k))
+        for i in range(0, len(combos), 6):
+            cases.append({'kind': 'lists', 'lists': [list(c) for c in combos[i:i + 6]]})
+    if tier == 'quick':   # smoothing needs k >= 5: all 5- and 6-subsets of the first eight pool members
+        combos = list(itertools.combinations(range(8), 5)) + list(itertools.combinations(range(8), 6))
         for i in range(0, len(combos), 6):
             cases.append({'kind': 'lists', 'lists': [list(c) for c in combos[i:i + 6]]})
     cases.append({'kind': 'helpers'})
@@ -277,6 +294,27 @@ def run_helpers(pe, acc, case):
                     acc.fail('sort_corr', dict(case, kl=list(kl), sizes=list(sizes)), 'sort_corr with key order %s sizes %s is not the corresponding permutation' % (kl, sizes))
                 else:
                     acc.ok(('sort', kl, sizes), tuple(kl) != tuple(sorted(kl)), 'sort_corr-ok')
+    # a scaled and shifted copy is perfectly (anti-)correlated with the original, for every kind of observable
+    for pi in range(len(PARAMS)):
+        obs, names = pool(pe, pi)
+        for i, o in enumerate(obs):
+            for c in (2.5, -0.4):
+                p = c * o - 1.0
+                p.gamma_method(**PARAMS[pi])
+                with warnings.catch_warnings():
+                    warnings.simplefilter('ignore')
+                    cov = pe.covariance([o, p])
+                    corr = pe.covariance([o, p], correlation=True)
+                exact = i in SINGLE_CHAIN or i in PURE_COV     # Pearson / J Sigma J^T clauses imply exactly +-1 there
+                if exact:
+                    bad = not abs(corr[0, 1] - np.sign(c)) <= 1e-12 or not abs(cov[0, 1] - c * o.dvalue ** 2) <= 1e-10 * abs(c) * o.dvalue ** 2
+                else:                                          # elsewhere only the stated range [-1, 1] is demanded
+                    bad = not abs(corr[0, 1]) <= 1 + 1e-12
+                if bad:
+                    acc.fail('cov:scaled-copy', dict(case, i=i, c=c, pi=pi), 'observable %s and %g * itself - 1: correlation %r, covariance %r (expected %s)' % (
+                        names[i], c, corr[0, 1], cov[0, 1], '%r, %r' % (np.sign(c), c * o.dvalue ** 2) if exact else 'within [-1,1]'))
+                else:
+                    acc.ok(('scaled', i, c, pi), True, 'scaled-copy')
     # error_band = sqrt(g^T C g)
     for pi in range(len(PARAMS)):
         obs, names = pool(pe, pi)
